@@ -67,6 +67,7 @@ RunRecord run_driver(const sim::Json& sc) {
   if (sc.has("clock_yield_ns")) g.clock_yield_ns = sc["clock_yield_ns"].as_int(1000);
   if (sc.has("alloc_fail_nth")) g.alloc_fail_nth = sc["alloc_fail_nth"].as_int(-1);
   if (sc.has("max_yields")) g.max_yields = (uint64_t)sc["max_yields"].as_int(1000000);
+  if (sc.has("stdio_bufsize")) g.stdio_bufsize = sc["stdio_bufsize"].as_int(0);
 
   g_stub.clear();
   g_script = sc["script"].is_obj() ? sc["script"] : sim::Json::object();
